@@ -101,7 +101,7 @@ static const int TH_Q[] = {1, 2, 3, 8};
 /* selection enumerates EVERY size 1..n, so n = 80 (80 sizes, up to 8 threads per greedy step) is left to the thorough tier there */
 static int pick_n(int selection) { if (H_TSAN) { static const int t[] = {3, 5, 13}; return t[vx_choose("n", 3)]; } return NS[vx_choose("n", selection && !vx_thorough() ? 6 : 7)]; }
 static int pick_d(void) { if (H_TSAN) return vx_choose("d", 2) ? 3 : 1; return DS[vx_choose("d", 4)]; }
-static int pick_fam(void) { return vx_choose("fam", H_TSAN ? 1 : vx_thorough() ? 4 : 1); }
+static int pick_fam(void) { return vx_choose("fam", H_TSAN ? 1 : vx_thorough() ? 2 : 1); }
 static int pick_th(void) { if (H_TSAN) { static const int t[] = {2, 3, 8}; return t[vx_choose("threads", 3)]; } return vx_thorough() ? 1 + vx_choose("threads-1", 8) : TH_Q[vx_choose("threads", 4)]; }
 static matrix *gen(int fam, int r, int c, double scale) {
   double *b = malloc(sizeof(double) * (size_t)(r * c + 1)); vg_fill(fam, r, c, b);
@@ -167,7 +167,7 @@ static void op_select(void) {
   int method = vx_choose("method", 3), n = pick_n(1), d = pick_d(), fam = pick_fam();
   int metric = method == 2 ? 0 : vx_choose("metric", 3);
   int want = 1 + vx_choose("size-1", n), th = pick_th();
-  int seed = method == 2 ? vx_choose("seed", H_TSAN ? 1 : vx_thorough() ? 4 : 2) : 0;
+  int seed = method == 2 ? vx_choose("seed", H_TSAN ? 1 : 2) : 0;
   matrix *m = gen(fam, n, d, 1.0); const char *tc = thcls(n, th); char key[200], cl[96];
   snprintf(cl, sizeof cl, "%s,%s", MET[metric], want == n ? "select-all" : want == 1 ? "select-1" : "select-some");
   uint64_t h = 10 + (uint64_t)method;
@@ -217,7 +217,7 @@ static const char *INIT[4] = {"random", "kmeans++", "MDC", "MaxDis"};
 static void op_kmeans(void) {
   int init = vx_choose("init", 4), n = pick_n(0), d = pick_d(), fam = pick_fam();
   int kmax = n < 6 ? n : 6, k = 1 + vx_choose("k-1", kmax), th = pick_th();
-  int seed = init < 2 ? vx_choose("seed", H_TSAN ? 1 : vx_thorough() ? 4 : 2) : 0;
+  int seed = init < 2 ? vx_choose("seed", H_TSAN ? 1 : vx_thorough() ? 3 : 2) : 0;
   double scale = vx_choose("scale", vx_thorough() || n <= 8 ? 2 : 1) ? 1e-4 : 1.0;   /* quick: the small-scale copy only for n <= 8 */
   matrix *m = gen(fam, n, d, scale); const char *tc = thcls(n, th); char key[200], fn[48];
   snprintf(fn, sizeof fn, "KMeans:%s-init", INIT[init]);
@@ -292,7 +292,7 @@ int main(int argc, char **argv) {
   vx_describe("oracle", "distinct in-range indices of the requested number; first = farthest from centroid and every next maximises the minimum library-metric value to the chosen ones "
               "(long double, candidates within 1e-9 accepted); MaxDis == MaxDis_Fast when no step is a near-tie; labels < k; centroid = mean of its members to 64 eps (members+2) max|x|; "
               "own-centroid distance <= nearest + 2 sqrt(d) 1e-3 when fewer than 101 iterations ran; results equal to the 1-thread run");
-  vx_set_shard_depth(6);
+  vx_set_shard_depth(7);
   vx_expect_outcomes(H_TSAN ? 100 : 1000);
   return vx_main(argc, argv, "C17", body);
 }
